@@ -3,7 +3,7 @@ from . import progdefs
 
 LEVEL = 'model_checking'
 LIMITS = {'max_unsupported': 0, 'max_undecided_frac': 0.3}
-OUTSIDE = ['programs that are not instances of the listed templates',
+OUTSIDE = ['programs that are neither instances of the listed templates nor one expression statement within the token bounds of the structural kernel (h_c02_accept in run-time mode: every accepted expression of up to 3 tokens (thorough: 4) over the names f, a, meter, second plus operator templates; the value must carry the dimension the checker reported for it, and run-time errors must be documented value-dependent ones)',
            'exponents that are computed doubles: Rational::from_f64 on a symbolic double is not executable symbolically, so the defect named in the property text — (m^2)^(0.1+0.2) has static type Length^(3/5) but a different run-time exponent — is NOT found by this check',
            'polymorphism decided by the *text* of a literal (0, inf, NaN, and whatever else the checker treats as polymorphic): literals are fixed per template, only magnitudes injected through __verif_sym are symbolic']
 ASSUMPTIONS = ['every magnitude is a symbolic double (all bit patterns); units metre, second, gram with prefixes, inch, foot, hour defined from the catalog',
@@ -50,10 +50,22 @@ def plan(tier, rnd, units):
     prelude = progdefs.PRELUDE_HEAD + progdefs.definitions([byname[n]['spec'] for n in UNITS], byname)
     cases = [{'id': tid, 'label': text.replace('\n', ' ; '), 'cfg': {0: prelude, 1: S(text), 2: dim, 3: allowed}} for tid, text, dim, allowed in TEMPLATES]
     to = 20000 if tier == 'quick' else 60000
-    return [{'entry': 'h_c01_sound', 'cases': cases, 'opts': {'query_timeout_ms': to, 'max_paths': 400, 'mode': 'fork', 'per_case_setup': True, 'instr_budget': 600_000_000},
+    from . import accept
+    accept_job = accept.job(tier, 'c01', ['F3'] if tier == 'quick' else ['F3', 'F4', 'F1'], ['S2'] if tier == 'quick' else ['S1', 'S2', 'S3', 'S4', 'S5'], 3 if tier == 'quick' else 4)
+    return [accept_job, {'entry': 'h_c01_sound', 'cases': cases, 'opts': {'query_timeout_ms': to, 'max_paths': 400, 'mode': 'fork', 'per_case_setup': True, 'instr_budget': 600_000_000},
              'expect_covers': ['c01-program-ran', 'c01-quantity-result']}]
 
 def classify(v, case):
+    if v.get('entry') == 'h_c02_accept':
+        # keyed by role: an expression that contains one of the polymorphic literals inf / NaN
+        txt = ''
+        for o in (v.get('rec') or {}).get('obs', []):
+            if o[0] == 'c02-input':
+                try: txt = bytes.fromhex(o[2]).decode()
+                except Exception: pass
+        if ('inf' in txt.split() or 'NaN' in txt.split()) and v['tag'] in ('no-unit-incompatibility-at-run-time', 'run-time-dimension-equals-static-type'):
+            return 'polymorphic-inf-nan-literal'
+        return None
     if case.get('id') in ('polymorphic-inf', 'polymorphic-nan') and v['tag'] in ('no-unit-incompatibility-at-run-time', 'run-time-dimension-equals-static-type'):
         return 'polymorphic-inf-nan-literal'
     return None
